@@ -50,10 +50,20 @@ class DualSolver:
         self.qf = z3.Solver()
         self.qf.set('timeout', opts.branch_ms)
         self.qf.set('random_seed', opts.seed)
+        # third mirror: facts over integer constants only (allocation order of references,
+        # lengths): answers "are these two references provably different" in microseconds
+        self.ord = z3.Solver()
+        self.ord.set('timeout', 200)
 
     def add(self, f):
         from .solve import has_quantifier
         self.main.add(f)
+        if pure_int(f):
+            self.ord.add(f)
+        elif z3.is_app(f) and f.decl().kind() == z3.Z3_OP_AND:
+            for x in f.children():
+                if pure_int(x):
+                    self.ord.add(x)
         if not has_quantifier(f):
             self.qf.add(f)
         elif z3.is_app(f) and f.decl().kind() == z3.Z3_OP_AND:
@@ -69,10 +79,21 @@ class DualSolver:
     def push(self):
         self.main.push()
         self.qf.push()
+        self.ord.push()
 
     def pop(self):
         self.main.pop()
         self.qf.pop()
+        self.ord.pop()
+
+    def provably_different(self, a, b):
+        if a.eq(b):
+            return False
+        self.ord.push()
+        self.ord.add(a == b)
+        r = self.ord.check()
+        self.ord.pop()
+        return r == z3.unsat
 
     def set(self, k, v):
         self.main.set(k, v)
@@ -88,6 +109,30 @@ class DualSolver:
 
     def reason_unknown(self):
         return self.main.reason_unknown()
+
+
+def pure_int(f, limit=60):
+    """formula built from integer constants, numerals, arithmetic and comparisons only"""
+    todo = [f]
+    n = 0
+    while todo:
+        x = todo.pop()
+        n += 1
+        if n > limit:
+            return False
+        if z3.is_quantifier(x) or not z3.is_app(x):
+            return False
+        k = x.decl().kind()
+        if x.num_args() == 0:
+            if k == z3.Z3_OP_UNINTERPRETED and not (z3.is_int(x) or z3.is_bool(x)):
+                return False
+            continue
+        if k in (z3.Z3_OP_AND, z3.Z3_OP_OR, z3.Z3_OP_NOT, z3.Z3_OP_IMPLIES, z3.Z3_OP_EQ, z3.Z3_OP_DISTINCT, z3.Z3_OP_LE, z3.Z3_OP_LT,
+                 z3.Z3_OP_GE, z3.Z3_OP_GT, z3.Z3_OP_ADD, z3.Z3_OP_SUB, z3.Z3_OP_UMINUS, z3.Z3_OP_MUL, z3.Z3_OP_ITE):
+            todo.extend(x.children())
+            continue
+        return False
+    return True
 
 
 class Frame:
@@ -220,8 +265,9 @@ class FnCtx:
             solver_name = 'z3-%s(standalone)' % z3.get_version_string()
             dt = time.time() - t0
         if r == z3.unknown:
-            # quantified goal: skolemise it and instantiate the quantified assumptions at the
-            # skolem constants by hand (the solver's own instantiation is seed dependent)
+            # skolemise a quantified goal and instantiate the quantified assumptions by hand at its
+            # skolem constants and at the map keys seen on the path (the solver's own
+            # instantiation is seed dependent)
             if self.retry_instantiated(st, goal):
                 ok = True
                 r = z3.unsat
@@ -313,7 +359,7 @@ class FnCtx:
             env.update(extra)
 
         def resolver(n, ev):
-            return self.resolve_name(ev.st, fr, n)
+            return self.resolve_name(getattr(ev, 'name_st', None) or ev.st, fr, n)
         return Ev(self, st, env, self.contract.pkg, old, self.contract.imports, resolver)
 
     def resolve_name(self, st, fr, n):
@@ -328,6 +374,13 @@ class FnCtx:
         if kind == 'addr':
             return st.load(st.ptr_loc(v))
         return v
+
+    def resolve_addr(self, st, n):
+        """location of a source variable that lives in memory (its address is taken)"""
+        ent = st.names.get(n)
+        if ent is None or ent[0] != 'addr' or ent[1] not in st.regs:
+            return None
+        return st.ptr_loc(st.regs[ent[1]])
 
     def run(self):
         t0 = time.time()
@@ -368,6 +421,14 @@ class FnCtx:
                 f = ev.bool(c.expr)
                 st.assume(f)
                 self.bind_constant_params(st, f)
+                for q in top_foralls(f):
+                    # a precondition quantified over map keys: instantiated at every key term
+                    # that appears later on (and at those already seen)
+                    if q.num_vars() == 1 and q.var_sort(0) == I and q.var_name(0).startswith('k@') or \
+                            (q.num_vars() == 1 and q.var_sort(0) == I and '@' in q.var_name(0) and 'forallkeys' in c.text):
+                        st.keyfacts.append(q)
+                        for t in list(st.keyterms):
+                            st.assume(z3.substitute_vars(q.body(), t))
             except SpecError as ex:
                 self.stale('%s.requires[%s]' % (self.short, c.label or c.line), str(ex))
         for (icon, ienv) in self.implemented(st):
@@ -711,6 +772,14 @@ class FnCtx:
             if icon is None:
                 self.stale('%s.implements[%s]' % (self.short, k), 'no such interface-method contract')
                 continue
+            if icon.opts.get('funcfield') is not None:
+                # a function assigned to a function-typed field: the field contract's parameter
+                # names denote this function's parameters (after the bound receiver, if any)
+                pn = [x for x in icon.opts['funcfield'].split(',') if x]
+                ps = params[len(params) - len(pn):]
+                env = {n2: self.input_vals[p2['name']] for n2, p2 in zip(pn, ps)}
+                out.append((icon, env))
+                continue
             recv = self.input_vals[params[0]['name']]
             bx = V.box(self.types, recv, st)
             env = {'recv': Val('any', bx.lv)}
@@ -895,14 +964,15 @@ class FnCtx:
                 newconj.append(body)
             else:
                 newconj.append(c)
-        if not sks:
+        cands = list(sks) + list(getattr(st, 'keyterms', []))[:12]
+        if not cands:
             return False
         insts = []
         for a in st.assumptions:
             for q in top_foralls(a):
                 if q.num_vars() != 1 or q.var_sort(0) != I:
                     continue
-                for sk in sks:
+                for sk in cands:
                     insts.append(z3.substitute_vars(q.body(), sk))
         self.solver.push()
         try:
@@ -934,6 +1004,31 @@ class FnCtx:
         r = q.check()
         q.pop()
         return r == z3.unsat
+
+    def implied_const(self, t):
+        """the integer constant the quantifier-free assumptions of the current path force t to be,
+        or None"""
+        key = ('ic', t.get_id(), len(getattr(self._cur_state, 'assumptions', [])))
+        cache = getattr(self, '_ic_cache', None)
+        if cache is None:
+            cache = self._ic_cache = {}
+        if key in cache:
+            return cache[key]
+        q = self.solver.qf
+        res = None
+        q.push()
+        try:
+            if q.check() == z3.sat:
+                mv = q.model().eval(t, model_completion=True)
+                if z3.is_int_value(mv):
+                    c = mv.as_long()
+                    q.add(t != c)
+                    if q.check() == z3.unsat:
+                        res = c
+        finally:
+            q.pop()
+        cache[key] = res
+        return res
 
     def quick_valid(self, g):
         self.solver.push()
